@@ -108,6 +108,9 @@ class Evaluator:
             c = children(n)
             if c:
                 b = strip(c[0])
+                if b.get('kind') == 'CXXOperatorCallExpr' and len(children(b)) == 2 and \
+                        (strip(children(b)[0]).get('referencedDecl') or {}).get('name') in ('operator->', 'operator*'):
+                    b = strip(children(b)[1])       # p->m on a smart pointer: the member of what p names
                 if b.get('kind') == 'DeclRefExpr':
                     key = ('member', (b.get('referencedDecl') or {}).get('id'), n.get('name'))
                     if key in env:
@@ -409,7 +412,11 @@ class Evaluator:
             for d in children(n):
                 if d.get('kind') == 'VarDecl':
                     init = [x for x in children(d) if not x['kind'].endswith('Attr')]
-                    if init:
+                    dflt = init and strip(init[-1]).get('kind') == 'CXXConstructExpr' and \
+                        not [x for x in children(strip(init[-1])) if x.get('kind') != 'CXXDefaultArgExpr']
+                    if init and dflt and d['id'] in env:
+                        pass        # `std::string s;` that the caller preset (a sink target): keep the value
+                    elif init:
                         th = self.find_throw(init[-1])
                         env[d['id']] = self.ev(init[-1], env)
                         # aggregate initialisation `T v{a, b, c};`: remember the members
